@@ -5,7 +5,8 @@ TRUSTED_BASE_COMMON = [
     "no axioms: every property theorem is 'Closed under the global context' (Print Assumptions audited on every run)",
     "hand-written Gallina model of dlt-core (coq/Model/*.v) — tied to /repo by the differential correspondence run of this check, on the inputs listed in this file only",
     "Coq extraction to OCaml with ExtrOcamlBasic only (no Extract Constant/Inductive of our own), ocamlopt 4.13.1, ocaml/driver.ml (line I/O); cross-checked per run by vm_compute inside Coq on a sample of the same cases",
-    "Rust harness (generators, wire printers, oracles), rustc/cargo as installed, harness built with debug-assertions and overflow-checks",
+    "Rust harness (generators, wire printers, oracles), rustc/cargo as installed; built twice: with debug-assertions and overflow-checks (the results compared with the model) and as a release build without them (its results must equal the checked build's wherever that did not panic); every case additionally re-run on a fresh thread (results must agree)",
+    "the source dictionary (harness/src/dict.rs) reads the literals of $DLTV_REPO_SRC with a small hand-written scanner; it only steers which inputs are generated",
 ]
 
 PROPS = {
@@ -35,11 +36,13 @@ PROPS = {
         "rule": "op 12 on pattern-dense strings over {D,L,T,01,00}; op 24 junk ++ message ++ rest with junk tails that are partial patterns/near misses; op 29 streams of 1-5 messages separated by junk. Plus pattern-free junk of 65547, 65548, 65551, 65552, 70000, 131072, 140001 bytes with near misses at its end (ops 12 and 24).",
     },
     "C07": {
+        "extra_property_files": ["C07b"],
         "rule": "op 40: streams of 0-5 well-formed messages (all payload kinds, both storage modes), intact or truncated (anywhere / at header, length-field and body boundaries), with hostile length fields (0..3, larger than what is left, off by a little), byte flips, random and tiny streams, hostile slice-parser inputs; x read() schedules (whole reads, one byte at a time, random short reads with Interrupted, stops exactly on header/length/body boundaries, runs of 0-3 interruptions before every delivery, a single interruption at every position; thorough: every 2-way partition of short streams) x reader construction (::new with the crate's default capacities, with_capacity 65551 / 70000); a quarter with a filter. The implementation's source implements std::io::Read from (stream, schedule).",
         "assumptions": ["std::io::BufReader / Read::read_exact modelled from the standard-library source (bufreader.rs, io/mod.rs default_read_exact); what std and the OS really do is exercised by this run, not proved",
                         "DltMessageReader::with_capacity with buffer_capacity < message_max_len trips the crate's own debug_assert and is outside the claim"],
     },
     "C08": {
+        "extra_property_files": ["C08b"],
         "rule": "op 41: the same streams as C07 x poll schedules (Pending runs of length 0-3 before every Ready, Ready(k) fragments of every size incl. 1 byte) through futures::executor::block_on and an AsyncRead that wakes itself before returning Pending; the oracle compares with the blocking reader of the implementation on the same bytes (messages equal, terminal outcome of the same class).",
         "assumptions": ["futures-util 0.3 BufReader::poll_read / ReadExact modelled from source; wakers, executors and cancellation are not in the model",
                         "Interrupted is not retried by futures' read_exact; the property does not quantify over it for the async reader and neither does the theorem"],
@@ -65,7 +68,8 @@ PROPS = {
         "assumptions": ["IEEE-754 binary64 multiplication and Rust's int->f64 / f32->f64 / f64->u64 casts are modelled with the standard library's SpecFloat (SFmul 53 1024, binary_normalize); the model is thereby checked against rustc's arithmetic on every case"],
     },
     "C13": {
-        "rule": "op 13: lists of 0-5 signal types x exact payloads, every truncation (a quarter of the cases) or one random truncation, trailing bytes, strings with invalid UTF-8 / NUL, both byte orders; a tenth include fixed-point signal types. One case in 97 uses field sizes 255, 256, 32767, 32768, 32769, 40000, 65535.",
+        "extra_property_files": ["C13b"],
+        "rule": "op 13: type lists of 255, 256, 257, 4096 (u8/bool) and 32767, 32768, 65535, 65536, 65537 (thorough: 70000) bool signals with exact and one-byte-short payloads; op 13: lists of 0-5 signal types x exact payloads, every truncation (a quarter of the cases) or one random truncation, trailing bytes, strings with invalid UTF-8 / NUL, both byte orders; a tenth include fixed-point signal types. One case in 97 uses field sizes 255, 256, 32767, 32768, 32769, 40000, 65535.",
     },
     "C15": {
         "rule": "op 14: well-formed arguments of every kind (some with blobs up to 65000 bytes) x byte order; op 15: configurations of every payload kind, with and without extended header, optional add_storage_header. One argument in six is OUTSIDE the well-formed domain (value of another kind, name/unit presence against the variable-info flag, another kind) to drive Argument::valid and the writer's fallback arms.",
